@@ -245,3 +245,156 @@ def count_points(desc):
   if desc['t'] != 'choice':
     return 1
   return desc['k'] * (1 + sum(count_points(c) for c in desc['cands']))
+
+
+# --------------------------------------------------------------------------
+# Description -> real spec, built from library objects that were used before.
+# --------------------------------------------------------------------------
+
+REUSE_ORDERS = ['same', 'reverse', 'rotate', 'shuffle', 'prefix', 'prefix2', 'suffix']
+REUSE_COPIES = ['object', 'object', 'clone', 'clone-deep', 'from_json', 'deepcopy', 'copy']
+
+
+def _reuse_copy(obj, how):
+  import copy as _copy   # pylint: disable=g-import-not-at-top
+  if how == 'object':
+    return obj
+  if how == 'clone':
+    return obj.clone()
+  if how == 'clone-deep':
+    return obj.clone(deep=True)
+  if how == 'deepcopy':
+    return _copy.deepcopy(obj)
+  if how == 'copy':
+    return _copy.copy(obj)
+  if how == 'from_json':
+    return pg.from_json(obj.to_json())
+  raise AssertionError(how)
+
+
+def _has_custom_point(obj):
+  return any(dp.is_custom_decision_point for dp in obj.decision_points)
+
+
+def build_reusing(desc, rng, stats=None, share=0.6):
+  """Builds the spec of `desc` the way user code shares building blocks.
+
+  Same result as `build(desc)` by the documentation, but the candidate
+  sub-spaces of a choice / the elements of a space are, with probability
+  `share` per container, library objects that already belonged to another
+  ("donor") spec at OTHER positions: the donor is a one-of / many-of / space
+  built from the same objects in another order or behind extra constants; the
+  objects are then taken back from the donor (`donor.candidates[i]`,
+  `donor.subchoice(j).candidates[i]`, `donor.elements[i]`), as they are or as
+  a clone / deep copy / JSON copy, after the donor's ids were read, and passed
+  to the real constructor in the order of the description.  `stats` (a dict)
+  counts what was done."""
+  stats = stats if stats is not None else {}
+
+  def count(k):
+    stats[k] = stats.get(k, 0) + 1
+
+  def reorder(objs):
+    n = len(objs)
+    order = rng.choice(REUSE_ORDERS)
+    idx = list(range(n))
+    extra_front, extra_back = 0, 0
+    if order == 'reverse':
+      idx.reverse()
+    elif order == 'rotate' and n:
+      r = rng.randrange(n)
+      idx = idx[r:] + idx[:r]
+    elif order == 'shuffle':
+      rng.shuffle(idx)
+    elif order == 'prefix':
+      extra_front = 1
+    elif order == 'prefix2':
+      extra_front = 2
+    elif order == 'suffix':
+      extra_back = 1
+    # donor position of object i
+    pos = {i: extra_front + p for p, i in enumerate(idx)}
+    moved = sum(1 for i in range(n) if pos[i] != i)
+    return order, idx, extra_front, extra_back, pos, moved
+
+  def reuse(objs, container, k=1):
+    if not objs or rng.random() >= share:
+      count('reuse:none[%s]' % container)
+      return objs
+    order, idx, ef, eb, pos, moved = reorder(objs)
+    if container == 'choice':
+      extra = lambda j: g.constant()
+    else:
+      extra = lambda j: g.oneof([g.constant(), g.constant()],
+                                location=pg.KeyPath.parse('extra%d' % j))
+    seq = ([extra(j) for j in range(ef)] + [objs[i] for i in idx]
+           + [extra(2 + j) for j in range(eb)])
+    # (a JSON copy of a custom decision point drops its functions, as documented)
+    json_ok = not any(_has_custom_point(o) for o in objs)
+    if container == 'choice':
+      kind = rng.choice(['oneof', 'oneof', 'manyof', 'manyof-subchoice', 'json'])
+      if kind == 'json' and not json_ok:
+        kind = 'oneof'
+      if kind in ('oneof', 'json'):
+        donor = g.oneof(seq, location=pg.KeyPath.parse('donor'))
+      else:
+        donor = g.manyof(2, seq, distinct=False, location=pg.KeyPath.parse('donor'))
+      if rng.random() < 0.5:
+        _ = [str(dp.id) for dp in donor.decision_points]      # fills the id caches
+        count('reuse:donor-ids-read')
+      if kind == 'json':
+        donor = pg.from_json(donor.to_json())
+      src = donor.subchoice(1).candidates if kind == 'manyof-subchoice' else donor.candidates
+      got = [src[pos[i]] for i in range(len(objs))]
+    else:
+      kind = rng.choice(['space', 'space', 'candidate-space'])
+      if kind == 'space':
+        donor = g.Space(seq)
+        src = donor.elements
+      else:
+        donor = g.oneof([g.constant(), g.Space(seq)])
+        src = donor.candidates[1].elements
+      if rng.random() < 0.5:
+        _ = [str(dp.id) for dp in donor.decision_points]
+        count('reuse:donor-ids-read')
+      got = [src[pos[i]] for i in range(len(objs))]
+    out = []
+    for o in got:
+      how = rng.choice(REUSE_COPIES)
+      if how == 'from_json' and not json_ok:
+        how = 'clone-deep'
+      count('reuse:copy=' + how)
+      out.append(_reuse_copy(o, how))
+    count('reuse:%s[%s]' % (kind, container))
+    count('reuse:order=' + order)
+    if moved:
+      count('reused_at_other_position')
+      stats['objects_reused_at_other_position'] = (
+          stats.get('objects_reused_at_other_position', 0) + moved)
+    return out
+
+  def b(d):
+    if d['t'] == 'space':
+      elems = reuse([b(e) for e in d['elems']], 'space')
+      return g.Space(elems)
+    loc = pg.KeyPath.parse(d['loc']) if d['loc'] else pg.KeyPath()
+    if d['t'] == 'float':
+      return g.floatv(d['lo'], d['hi'], location=loc, name=d['name'])
+    if d['t'] == 'custom':
+      return g.custom(hyper_type='Gen', random_dna_fn=_custom_random,
+                      location=loc, name=d['name'])
+    cands = reuse([b(c) for c in d['cands']], 'choice', d['k'])
+    lits = list(d['lits']) if d['lits'] is not None else None
+    if d['k'] == 1:
+      return g.oneof(cands, literal_values=lits, location=loc, name=d['name'])
+    return g.manyof(d['k'], cands, distinct=d['distinct'], sorted=d['sorted'],
+                    literal_values=lits, location=loc, name=d['name'])
+
+  spec = b(desc)
+  if rng.random() < 0.3:
+    # the whole spec taken out of a donor as well
+    donor = g.oneof([g.constant(), g.constant(), spec])
+    spec = _reuse_copy(donor.candidates[2], rng.choice(
+        ['clone', 'clone-deep', 'clone-deep' if _has_custom_point(spec) else 'from_json']))
+    count('reuse:root-from-candidate')
+  return spec
